@@ -440,9 +440,9 @@ class Run:
                 warnings.simplefilter('ignore')
                 c = self.L.decode(text)
             return c, None
-        except RecursionError:
+        except (RecursionError, KeyboardInterrupt, SystemExit):
             raise
-        except Exception as e:     # every exception is a rejection
+        except BaseException as e:     # every exception (pyo3 panics included) is a rejection
             return None, type(e).__name__
 
     def ref_expect(self, n, ops):
